@@ -201,9 +201,21 @@ pub fn eval(expr: Node) -> Result<Decimal, Box<dyn error::Error>> {
         Exp2(sub_expr) => Decimal::new(2, 0)
             .checked_powd(eval(*sub_expr)?)
             .ok_or_else(|| "Decimal overflow".into()),
-        Pow(expr1, expr2) => eval(*expr1)?
-            .checked_powd(eval(*expr2)?)
-            .ok_or_else(|| "Decimal overflow".into()),
+        Pow(expr1, expr2) => {
+            let base = eval(*expr1)?;
+            let exponent = eval(*expr2)?;
+            let power =
+                if exponent.is_sign_negative() && !base.is_zero() && base.abs() < Decimal::ONE {
+                    // powd computes x^-y as 1 / x^y: for |x| < 1 the intermediate x^y is tiny and keeps
+                    // only a few of the 28 digits, so raise the reciprocal instead
+                    Decimal::ONE
+                        .checked_div(base)
+                        .and_then(|reciprocal| reciprocal.checked_powd(-exponent))
+                } else {
+                    base.checked_powd(exponent)
+                };
+            power.ok_or_else(|| "Decimal overflow".into())
+        }
         Log(expr1, expr2) => {
             let x = eval(*expr1)?;
             let base = eval(*expr2)?;
